@@ -281,6 +281,7 @@ let rec handle_io (toks : string list) : string =
          Printf.sprintf "send=%d recv=%d" (if List.mem "S30-after-write" pl then 1 else 0)
            (if List.mem "S100-after-read" pl then 1 else 0)
          ^ (if List.exists (fun x -> x <> "S30-after-write" && x <> "S100-after-read") pl then " other" else "")
+         ^ " reply=" ^ (match res with Ok r -> str_omsg r | Err _ -> "ER")
        end else
          Printf.sprintf "%s | %s | %s"
            (match res with Ok r -> "OK " ^ str_omsg r | Err _ -> "ER")
